@@ -62,6 +62,7 @@ impl VM {
             repl_known_globals: HashSet::new(),
             repl_known_native_globals: HashSet::new(),
             repl_symbol_origins: HashMap::new(),
+            repl_session: None,
         };
         super::builtins::register_builtins(&mut vm)?;
 
